@@ -52,8 +52,20 @@ def specs(rng):
         return ('FormulaGrader', {'variables': ['x'], 'samples': 3}, ['x^2', 'x*x', '2*x', 'x+x', 'x^2+1', 'x', 'x^2+0*x', '3*x'],
                 ['x^2', 'x*x', '2*x', 'x+x', 'x^3', 'x^2+1', 'x'])
     if kind == 'Matrix':
-        return ('MatrixGrader', {}, ['[1,2]', '[1,2]+[0,0]', '[2,4]/2', '[1,3]', '[0,0]', '2*[0.5,1]'],
-                ['[1,2]', '[2,4]/2', '[1,3]', '[0,0]', '[5,5]', '[1,2]*1'])
+        base = {}
+        pool = ['[1,2]', '[1,2]+[0,0]', '[2,4]/2', '[1,3]', '[0,0]', '2*[0.5,1]']
+        inputs = ['[1,2]', '[2,4]/2', '[1,3]', '[0,0]', '[5,5]', '[1,2]*1']
+        r = rng.random()
+        if r < 0.3:
+            base['entry_partial_credit'] = rng.choice([0.5, 'proportional'])     # a comparer that itself awards partial credit
+        elif r < 0.6:
+            # shape mismatches are tolerated (graded wrong) instead of raised: alternatives of different shapes can coexist
+            base.update(rng.choice([{'answer_shape_mismatch': {'is_raised': False}}, {'suppress_matrix_messages': True},
+                                    {'answer_shape_mismatch': {'is_raised': False, 'msg_detail': None}}]))
+            base['max_array_dim'] = 2
+            pool = pool + ['[1,2,3]', '[[1,2],[3,4]]', '7']
+            inputs = inputs + ['[1,2,3]', '[[1,2],[3,4]]', '7', '[1,2,4]']
+        return ('MatrixGrader', base, pool, inputs)
     return ('SingleListGrader', {'ordered': rng.random() < 0.5, 'partial_credit': rng.random() < 0.6},
             [['a', 'b'], ['b', 'a'], ['a', 'c'], ['c', 'd'], ['a', 'a']], ['a,b', 'b,a', 'a,c', 'c,d', 'a', 'x,y', 'a,b,c'])
 
@@ -152,7 +164,7 @@ def run_item(ctx):
                         ctx.violation('C08:%s:message_of_foreign_origin' % cls_name, 'message %r is none of %r' % (o.value['msg'], sorted(legal)),
                                       {'grader': cls_name, 'config': base, 'alternatives': alts, 'input': inp})
             best = max(o.value['grade_decimal'] for o in souts)
-            winners = [o.value for o in souts if o.value['grade_decimal'] == best]
+            winners = [dict(o.value, msg=o.value['msg'].replace('<br/>\n', '\n')) for o in souts if o.value['grade_decimal'] == best]
             maxlen = max(len(w['msg']) for w in winners)
             ok_msgs = set(w['msg'] for w in winners if len(w['msg']) == maxlen)
             matched = sum(1 for o in souts if o.value['grade_decimal'] > 0)
@@ -262,7 +274,7 @@ def run_author_comparer(ctx):
         cls = rng.choice([M.FormulaGrader, M.NumericalGrader, M.MatrixGrader])
         numeric = cls is M.NumericalGrader
         base = '3' if numeric else 'x^2+1'
-        c1, c2 = rng.choice([0.6, 0.8, 1]), rng.choice([0.4, 0.9])
+        c1, c2 = rng.choice([0.6, 0.8, 1]), rng.choice([0.4, 0.9, 0])     # (a zero-credit alternative stays worth nothing whatever the comparer says)
         alts = [{'expect': {'comparer': comp, 'comparer_params': [base]}, 'grade_decimal': c1, 'msg': 'A'},
                 {'expect': {'comparer': comp, 'comparer_params': ['5*(%s)' % base]}, 'grade_decimal': c2, 'msg': 'B'}]
         if rng.random() < 0.5:
